@@ -218,7 +218,7 @@ def exec_c04(cfg, devs):
     p = Partial()
     dev = _device_b()
     menu = ('once', 'delay0.3')
-    ex = cfh.Exec(devs, dev, time_limit=40.0, reply_menu=menu, needs_resending=True)
+    ex = cfh.Exec(devs, dev, time_limit=40.0, reply_menu=menu, needs_resending=True, policy=cfg.get('policy'))
     ex.env.on_tx = lambda idx, h, data, st: ex.log('tx', h, bytes(data)) if (
         (h >> 4) == 2 and (h & 3) != 0 and info.get('armed')) else None
     info = {'results': {}, 'issued': []}
@@ -478,6 +478,9 @@ def configs(quick):
     out.append({'name': 'getstate2+unsolicited', 'threads': 'getstate2', 'unsolicited': 0.05})
     out.append({'name': 'set+read+unsolicited', 'threads': 'set+read', 'unsolicited': 0.05})
     out.append({'name': 'mixed3+unsolicited', 'threads': 'mixed3', 'unsolicited': 0.05})
+    for pol in ('handoff', 'eager'):
+        for th in ('getstate2', 'set+read', 'store+state'):
+            out.append({'name': '%s:%s' % (th, pol), 'threads': th, 'policy': pol})
     return out
 
 
